@@ -10,13 +10,13 @@
 use std::sync::atomic::{AtomicUsize, Ordering};
 
 use crate::engine::Violation;
-use crate::gen::{gen_run, Mode};
+use crate::gen::gen_miri;
 use crate::rng::{derive, Fnv};
 use crate::slots::{build_slot, exec, Slot};
 use crate::types::*;
 
 pub fn run(seed: u64, index: u64, dump_only: bool) -> i32 {
-    let g = gen_run(derive(derive(seed, 0x3141_5926), index), Mode::C17Miri);
+    let g = gen_miri(derive(derive(seed, 0x3141_5926), index), index);
     let spec = g.spec;
     if dump_only {
         println!("{}", serde_json::to_string(&spec).unwrap());
